@@ -158,7 +158,7 @@ class Model:
                    message=cfg.get('message', 'msg:' + cfg['label']), title=cfg.get('title', 'T:' + cfg['label']),
                    correct=cfg.get('correct'), score=cfg.get('score'), unscored=cfg.get('unscored'),
                    valence=cfg.get('valence'), muted=cfg.get('muted'), kind=cfg.get('kind', 'Mistake'),
-                   else_message=cfg.get('else_message'), NEGATIVE_VALENCE=self.NEG,
+                   else_message=cfg.get('else_message'), NEGATIVE_VALENCE=self.NEG, priority=cfg.get('priority'),
                    resolved_score=None, __truth__=cfg['triggered'])
 
     def resolve(self, cfgs, suppressions=None, suppressed_labels=None):
@@ -175,7 +175,7 @@ class Model:
                 'correct': a.get('correct'), 'score': a.get('score'), 'category': a.get('category'),
                 'scores': list(a.get('_scores', []))}
 
-    def run_driver(self, resolve_fn, cfgs, ranks, with_ignored=True, then=None):
+    def run_driver(self, resolve_fn, cfgs, ranks, with_ignored=True, then=None, plain=False):
         """Abstractly run a resolver module's resolve(report, priority_key) on a small report; the key function is a
         symbolic rank. Returns the result dict (or, for the sectional resolver, that of the only group)."""
         fd, final0 = self.new_final({}, {})
@@ -185,8 +185,13 @@ class Model:
             o.attrs['__rank__'] = rank
             o.attrs.setdefault('parent', None)
             fbs.append(o)
-        report = Obj('report', suppressions={}, suppressed_labels={}, resolves=[], result=None,
-                     feedback=[o for o in fbs if truth(o)], ignored_feedback=[o for o in fbs if not truth(o)])
+        from .. import symexec as _sx
+        # (every bookkeeping attribute Report.__init__ creates exists on the model report, empty)
+        base_attrs = {k: (type(v)() if isinstance(v, (list, dict, set)) else v)
+                      for k, v in _sx.init_literals(self.ctx.repo.module('pedal.core.report'), 'Report').items()}
+        base_attrs.update(suppressions={}, suppressed_labels={}, resolves=[], result=None,
+                          feedback=[o for o in fbs if truth(o)], ignored_feedback=[o for o in fbs if not truth(o)])
+        report = Obj('report', **base_attrs)
         report.attrs['method:finalize_feedbacks'] = lambda: None
         report.attrs['method:execute_hooks'] = lambda *a, **k: None
         finals = []
@@ -211,14 +216,17 @@ class Model:
         key = lambda fb: fb.attrs['__rank__']
         try:
             resolver = self.decorated(fd, resolve_fn)
-            out = resolver(report, key)
+            # plain: the form scripts and environments use - resolve(report) with the resolver's own default key
+            out = resolver(report) if plain else resolver(report, key)
             if then is not None:
                 # the same report is resolved again after its visibility changed (an environment resolves on exit
                 # although the script already did; an instructor mutes or suppresses something in between)
                 then(fbs, report)
-                out = resolver(report, key)
+                out = resolver(report) if plain else resolver(report, key)
         except Raised as r:
             return ('raised', r.kind, r.detail)
+        except Inconclusive as e:
+            raise AnalysisError("resolve() is outside the decidable fragment: %s" % e)
         if isinstance(out, dict):
             if len(out) > 1:
                 raise Inconclusive('driver: more than one group for ungrouped feedback')
